@@ -13,6 +13,9 @@ import warnings
 
 import numpy as np
 
+# finding F3 (a child listed twice under one parent was accepted), repaired in the package: the entry
+# of known_findings.json is kind=fixed and suppresses nothing, so an implementation that accepts such a
+# tree again is reported under this class
 F3 = 'F3-validator-accepts-duplicate-child'
 
 LEVEL_NAMES = ['class', 'subclass', 'supertype', 'cluster', 'a_level', 'Z_level']
@@ -713,8 +716,13 @@ def move_one_child(data, rng):
 
 # ------------------------------------------------------------------ malformed stream
 REJECTED = {'orphan_new_node', 'orphan_unlisted', 'dangling_new_name', 'dangling_deleted_node', 'second_parent',
-            'shared_row', 'shared_row_same_leaf'}
-ACCEPTED = {'dup_child', 'childless_top_node', 'empty_only_level', 'empty_new_leaf_level'}
+            'shared_row', 'shared_row_same_leaf', 'dup_child', 'dup_child_appended'}
+ACCEPTED = {'childless_top_node', 'empty_only_level', 'empty_new_leaf_level'}   # documented gaps of the validator
+
+
+def accepts_class(cls):
+    """class string of 'a malformed tree of class cls was accepted'"""
+    return F3 if cls.startswith('dup_child') else f'C10-accepts-{cls}'
 
 
 def mutants(data, rng):
@@ -772,6 +780,14 @@ def mutants(data, rng):
             c = rng.choice(m[h[k]][p])
             m[h[k]][p].insert(rng.randrange(len(m[h[k]][p]) + 1), c)
             out.append(('dup_child', m))
+            # ... and appended at the end of the list (the mutant of c10_mutants_rejected), at another level
+            k = rng.randrange(0, n - 1)
+            ps = [p for p, v in data[h[k]].items() if v]
+            if ps:
+                m = cp()
+                p = rng.choice(ps)
+                m[h[k]][p].append(rng.choice(m[h[k]][p]))
+                out.append(('dup_child_appended', m))
         # an internal node without children (top level: needs no parent)
         m = cp()
         m[h[0]][rng.choice(EXTRA_NAMES)] = []
@@ -803,11 +819,16 @@ def mutants(data, rng):
     return out
 
 
-FIXED_F3 = [
+# fixed witnesses: those of finding F3 (refused since the repair) and of the two gaps that are left
+# (accepted; they go through every operation)
+FIXED_WITNESSES = [
     ('dup_child', {'hierarchy': ['A', 'B'], 'A': {'a': ['x', 'x', 'y']}, 'B': {'x': [], 'y': []}}),
     ('dup_child', {'hierarchy': ['A', 'B'], 'A': {'a': ['x', 'x']}, 'B': {'x': [3]}}),
     ('dup_child', {'hierarchy': ['A', 'B', 'C'], 'A': {'a': ['x', 'y', 'x']}, 'B': {'x': ['l1', 'l2'], 'y': ['l3']},
                    'C': {'l1': [0], 'l2': [1], 'l3': [2]}}),
+    ('dup_child', {'hierarchy': ['A', 'B'], 'A': {'a': ['x', 'x', 'y']}, 'B': {'x': [0], 'y': [1]}}),
+    ('dup_child', {'hierarchy': ['A', 'B', 'C'], 'A': {'a': ['x'], 'b': ['y', 'z', 'z']}, 'B': {'x': ['l1'], 'y': ['l2'], 'z': ['l3']},
+                   'C': {'l1': [], 'l2': [], 'l3': []}}),
     ('childless_internal', {'hierarchy': ['A', 'B'], 'A': {'a': ['x'], 'b': []}, 'B': {'x': [0]}}),
     ('childless_internal', {'hierarchy': ['A', 'B', 'C'], 'A': {'a': ['x', 'y']}, 'B': {'x': ['l'], 'y': []}, 'C': {'l': [0]}}),
     ('empty_level', {'hierarchy': ['A', 'B'], 'A': {}, 'B': {}}),
@@ -842,7 +863,7 @@ def malformed_stream(ctx, batch, data, rng, origin):
         if cls in REJECTED and acc:
             ctx.disagreements_checked += 1
             ctx.violation(f'a malformed tree ({cls}) is accepted by the validator',
-                          dict(desc, **{'class': f'C10-accepts-{cls}'}))
+                          dict(desc, **{'class': accepts_class(cls)}))
         if acc:
             check_tree(ctx, batch, m, desc['origin'], rng, full=False)
         else:
@@ -1032,11 +1053,15 @@ def run(ctx):
     ctx.extra['shapes_enumerated'] = n_shapes
     ctx.exhaustive = True
     batch.flush()
-    # fixed witnesses of F3 and the typed verdict table
-    for cls, m in FIXED_F3:
+    # fixed witnesses (F3: refused; the two remaining gaps: accepted) and the typed verdict table
+    for cls, m in FIXED_WITNESSES:
         tt, _ = construct(m)
         ctx.dist('mutant_verdict', f'fixed_{cls}:{"accepted" if tt is not None else "rejected"}')
         ctx.count(('fixed', json.dumps(m)), nontrivial=True)
+        if cls in REJECTED and tt is not None:
+            ctx.disagreements_checked += 1
+            ctx.violation(f'a malformed tree ({cls}) is accepted by the validator',
+                          {'class': accepts_class(cls), 'tree': m, 'origin': f'fixed:{cls}', 'mutant_class': cls})
         check_tree(ctx, batch, m, f'fixed:{cls}', rng, full=False)
     base = build_tree((2, [(2, 1)]), rng, 0)
     for cls, m, want in typed_mutants(base):
